@@ -20,11 +20,19 @@
      - and a whole seal - bootstrap of the built-in pools, settlement, peg, TIP-909 subsidy, proposer
        reward - for ERG and every custom denomination ([C01_seal_unpegged]): nothing is created beyond the
        one-off reserves of a built-in pool that did not exist yet.
-   NOT proved: MEL and SYM across the peg and the TIP-909 subsidy, which mint them by design; that issuance is
-   evaluated by the model on the real before/after states of every seal of the stf stream (Cases/Reflect.v
-   [supply], [seal_issuance]). *)
+     - and a whole seal for MEL and SYM, the two denominations the protocol mints by design ([C01_seal_mel_sym]):
+       coins + reserves (+ fee pool and tips for MEL) grow by at most the bootstrap, the peg nudge (at most
+       2^128 / throttler) and, for SYM, the scheduled subsidy 2^20 >> ((height - TIP-909 height) / 10^6); the
+       subsidy's MEL goes from the MEL/SYM reserve to the fee pool and the proposer reward from the fee pool and
+       the tips to a coin, so neither creates MEL.
+     - and whole histories ([C01_every_history], [C01_every_history_mel_sym]): across any sequence of batches
+       (accepted or refused) and sealed blocks, what exists of a denomination grows by at most the sum of the
+       steps' explicit issuances.
+   So every clause of the full statement is a theorem, under the stated side conditions (hash-oracle facts; request
+   coins as declared; sums below 2^128).  The exact issuance of each real seal is also evaluated by the model on
+   the real before/after states of the stf stream (Cases/Reflect.v [supply], [seal_issuance]). *)
 From MelVerif Require Import STF.Model STF.Proofs.MapLemmas STF.Proofs.Faucet STF.Proofs.Coins STF.Proofs.Supply STF.Proofs.Pool
-  STF.Proofs.SealCoins STF.Proofs.HashFacts STF.Proofs.BatchSupply STF.Proofs.SealSupply STF.Proofs.SealLift STF.Proofs.Witness2 STF.Proofs.Witness3 STF.Proofs.Witness.
+  STF.Proofs.SealCoins STF.Proofs.HashFacts STF.Proofs.BatchSupply STF.Proofs.SealSupply STF.Proofs.SealLift STF.Proofs.SealPegged STF.Proofs.SealCounts STF.Proofs.History STF.Proofs.PoolHistory STF.Proofs.SupplyHistory STF.Proofs.Witness2 STF.Proofs.Witness3 STF.Proofs.Witness4 STF.Proofs.Witness7 STF.Proofs.Witness.
 Open Scope N_scope.
 
 (* every accepted non-faucet transaction is balanced denomination by denomination: outputs plus fee equal the
@@ -258,3 +266,121 @@ Theorem C01_seal_unpegged : forall K, NoDup (map poolkey_code K) -> forall SO, I
 Proof. exact seal_settles_unpegged. Qed.
 Print Assumptions C01_seal_unpegged.
 
+
+(* ---- a whole seal for MEL and SYM.  [held K d s]: everything of d that exists; [peg_cap], [subsidy]: the caps
+   of the two issuance rules. *)
+Theorem C01_pegged_def : forall d, pegged d <-> d = Mel \/ d = Sym.
+Proof. exact pegged_def. Qed.
+Print Assumptions C01_pegged_def.
+Theorem C01_held_def : forall K d s,
+  held K d s = coin_supply d (s_coins s) + psum K d s + (if denom_eqb d Mel then s_fee_pool s + s_tips s else 0).
+Proof. exact held_def. Qed.
+Print Assumptions C01_held_def.
+Theorem C01_peg_cap_def : forall s, peg_cap s = MAX128 / (if tip_902 s then 200 else 1000).
+Proof. exact peg_cap_def. Qed.
+Print Assumptions C01_peg_cap_def.
+Theorem C01_subsidy_def : forall s,
+  subsidy s = if tip_909 s then N.shiftr (2 ^ 20) ((s_height s - TIP_909_HEIGHT) / 1000000) else 0.
+Proof. exact subsidy_def. Qed.
+Print Assumptions C01_subsidy_def.
+
+(* the three steps that mint or move MEL / SYM, one at a time *)
+Theorem C01_peg_bounded : forall K, NoDup (map poolkey_code K) -> In MS K /\ In ME K /\ In ES K ->
+  forall d s s', pegged d -> process_pegging s = Ok s' -> held K d s' <= held K d s + peg_cap s.
+Proof. exact pegging_held. Qed.
+Print Assumptions C01_peg_bounded.
+
+Theorem C01_subsidy_bounded : forall K, NoDup (map poolkey_code K) -> In MS K /\ In ME K /\ In ES K ->
+  forall d s s', pegged d -> apply_tip_909 s = Ok s' ->
+  held K d s' <= held K d s + (if denom_eqb d Mel then 0 else N.shiftr (2 ^ 20) ((s_height s - TIP_909_HEIGHT) / 1000000)).
+Proof. exact tip909_held. Qed.
+Print Assumptions C01_subsidy_bounded.
+
+Theorem C01_reward_is_paid_not_minted : forall K SO d s act s',
+  pegged d -> collect_proposer_fee SO s act = Ok s' -> held K d s' <= held K d s.
+Proof. exact reward_held. Qed.
+Print Assumptions C01_reward_is_paid_not_minted.
+
+(* the whole seal *)
+Theorem C01_seal_mel_sym : forall K, NoDup (map poolkey_code K) -> forall SO, In MS K /\ In ME K /\ In ES K ->
+  forall s a s' d,
+  pegged d ->
+  seal SO s a = Ok s' ->
+  legacy_net s && (s_height s <? 978392) = false ->
+  (forall t k, In t (sorted_txs s) -> tx_pool t = Some k -> In k K /\ LDk SO k <> fst k /\ LDk SO k <> snd k) ->
+  NoDup (key_pairs (sorted_txs s)) ->
+  (forall t c, In t (sorted_txs s) -> s_coins s !! key0 t = Some c -> as_declared c (out0 t)) ->
+  (forall t c, In t (sorted_txs s) -> s_coins s !! key1 t = Some c -> as_declared c (out1 t)) ->
+  nsum (map (fun t => cd_value (out0 t)) (sorted_txs s)) < U128 ->
+  nsum (map (fun t => cd_value (out1 t)) (sorted_txs s)) < U128 ->
+  (forall s2 s3, process_swaps (create_builtins s) = Ok s2 -> process_deposits SO s2 = Ok s3 ->
+     (forall k p'' m, In k K ->
+        pool_deposit (pool_at s2 k)
+          (nsum (map (fun t => cd_value (out0 t)) (txs_for_pool (List.filter (is_deposit_request s2) (sorted_txs s2)) k)))
+          (nsum (map (fun t => cd_value (out1 t)) (txs_for_pool (List.filter (is_deposit_request s2) (sorted_txs s2)) k))) = Ok (p'', m) ->
+        p_liqs (pool_at s2 k) + m < U128) /\
+     (forall k p, In k K -> get_pool s3 k = Some p -> p_lefts p < U128 /\ p_rights p < U128)) ->
+  held K d s' <= held K d s + bootstrap K d s + peg_cap s + (if denom_eqb d Mel then 0 else subsidy s).
+Proof. exact seal_pegged. Qed.
+Print Assumptions C01_seal_mel_sym.
+
+(* on the concrete block of STF/Proofs/Witness3.v (a swap, a deposit and a withdrawal against the MEL/SYM pool),
+   sealed as a whole, both sides of the conclusion evaluate: the peg moved MEL and SYM by less than 10^9 here *)
+Example C01_seal_mel_sym_witness :
+  seal w_oracle w_block_state None = Ok w_sealed /\
+  held w_K3 Mel w_sealed <= held w_K3 Mel w_block_state + bootstrap w_K3 Mel w_block_state + peg_cap w_block_state /\
+  held w_K3 Sym w_sealed <= held w_K3 Sym w_block_state + bootstrap w_K3 Sym w_block_state + peg_cap w_block_state + subsidy w_block_state.
+Proof.
+  split; [exact w_sealed_ok|]. split; apply N.leb_le; [exact w_pegged_mel|exact w_pegged_sym].
+Qed.
+
+(* ---- whole histories ([hstep], [hist_all]: Properties/C20.v; [seal_premises]: Properties/C16.v).
+   [grows K SO d x s s']: from s to s' what exists of d grew by at most x - liquidity tokens being allowed to grow
+   with the liquidity their pool records. *)
+Theorem C01_grows_def : forall K SO d x s s',
+  grows K SO d x s s' <-> held K d s' + liq_of K SO d s <= held K d s + liq_of K SO d s' + x.
+Proof. exact grows_def. Qed.
+Print Assumptions C01_grows_def.
+
+(* what one seal may add: the bootstrap of built-in pools that did not exist, and for MEL / SYM the capped peg nudge
+   and (SYM) the scheduled subsidy *)
+Theorem C01_seal_cap_def : forall K d s,
+  seal_cap K d s = bootstrap K d s + (match d with Mel => peg_cap s | Sym => peg_cap s + subsidy s | _ => 0 end).
+Proof. exact seal_cap_def. Qed.
+Print Assumptions C01_seal_cap_def.
+
+(* the explicit issuance of a step is what an accepted batch declares / what a successful seal may add *)
+Theorem C01_step_issuance_def : forall K SO d s o,
+  step_issuance K SO d s o =
+  match o with
+  | HBatch lh txs => match apply_tx_batch SO s lh txs with Ok _ => batch_issuance d txs | _ => 0 end
+  | HBlock a hdr => match seal SO s a with Ok _ => seal_cap K d s | _ => 0 end
+  end.
+Proof. exact step_issuance_def. Qed.
+Print Assumptions C01_step_issuance_def.
+Theorem C01_hist_issuance_def : forall K SO d s ops,
+  hist_issuance K SO d s ops =
+  match ops with [] => 0 | o :: r => step_issuance K SO d s o + hist_issuance K SO d (hstep SO s o) r end.
+Proof. exact hist_issuance_def. Qed.
+Print Assumptions C01_hist_issuance_def.
+Theorem C01_step_assumptions_def : forall K SO s o,
+  supply_step_ok K SO s o <-> match o with HBatch lh txs => HashOK SO s txs | HBlock a hdr => seal_premises K SO s end.
+Proof. exact supply_step_ok_def. Qed.
+Print Assumptions C01_step_assumptions_def.
+
+(* C01: for every denomination, every history *)
+Theorem C01_every_history : forall K, NoDup (map poolkey_code K) -> forall SO, In MS K /\ In ME K /\ In ES K ->
+  forall d, d <> NewCustom -> forall ops s,
+  hist_all SO (supply_step_ok K SO) s ops ->
+  grows K SO d (hist_issuance K SO d s ops) s (fold_left (hstep SO) ops s).
+Proof. exact supply_history. Qed.
+Print Assumptions C01_every_history.
+
+(* and for MEL and SYM, which are no pool's liquidity token: everything that exists afterwards is at most what
+   existed before plus the explicit issuance of the steps *)
+Theorem C01_every_history_mel_sym : forall K, NoDup (map poolkey_code K) -> forall SO, In MS K /\ In ME K /\ In ES K ->
+  forall d ops s, pegged d ->
+  hist_all SO (supply_step_ok K SO) s ops ->
+  held K d (fold_left (hstep SO) ops s) <= held K d s + hist_issuance K SO d s ops.
+Proof. exact supply_history_pegged. Qed.
+Print Assumptions C01_every_history_mel_sym.
